@@ -1,5 +1,5 @@
 """C01 — write then read returns exactly what was written."""
-import binascii, re
+import binascii, struct, re
 import wprog
 from wprog import Opts
 from zvlib import Check, run_lines
@@ -12,22 +12,26 @@ def spec_entries(ops):
     """the abstract semantics of the writer API on legal programs: [(name, content, method, date, time, mode)]"""
     out = []
     cur = None
+    in_extra = False          # writes between start_file_with_extra_data and end_extra_data are extra data, not content
     for op in ops:
         k = op[0]
-        if k == "file":
+        if k in ("file", "extra", "aligned"):
             o = op[2]
             cur = [op[1], b"", o.method, o.date, o.time, ((o.perm if o.perm is not None else 0o644) | 0o100000)]
             out.append(cur)
+            in_extra = k == "extra"
+        elif k == "endextra":
+            in_extra = False
         elif k == "dir":
             o = op[2]
             n = op[1] if op[1].endswith((b"/", b"\\")) else op[1] + b"/"
             out.append([n, b"", 0, o.date, o.time, ((o.perm if o.perm is not None else 0o755) | 0o40000)])
-            cur = None
+            cur = None; in_extra = False
         elif k == "symlink":
             o = op[3]
             out.append([op[1], op[2], 0, o.date, o.time, ((o.perm if o.perm is not None else 0o777) | 0o120000)])
-            cur = None
-        elif k == "write" and cur is not None:
+            cur = None; in_extra = False
+        elif k == "write" and cur is not None and not in_extra:
             cur[1] += op[1]
     return out
 
@@ -101,8 +105,26 @@ class C01(Check):
             for i in range(k):
                 kind = r.random()
                 if kind < 0.7:
-                    ops.append(("file", self.rand_name(i), self.rand_opts()))
-                    c = self.rand_content(big_ok=(a == 7 if self.tier == 'quick' else a % 15 == 0))
+                    # the three ways to start a file: plain, with extra data (local, then optionally central-only), aligned
+                    how = r.random()
+                    if how < 0.7:
+                        ops.append(("file", self.rand_name(i), self.rand_opts()))
+                    elif how < 0.85:
+                        ops.append(("extra", self.rand_name(i), self.rand_opts()))
+                        for part in range(r.choice([1, 1, 2])):
+                            if part == 1:
+                                ops.append(("endlocal",))
+                            for q in range(r.choice([0, 1, 1, 2])):
+                                n = r.choice([0, 1, 4, 20, 300])
+                                ops.append(("write", struct.pack("<HH", 0xbe00 + r.randrange(256), n) + bytes(r.randrange(256) for _ in range(n))))
+                        if r.random() < 0.2:
+                            continue                       # no end_extra_data: the next call ends the extra data implicitly (empty file)
+                        ops.append(("endextra",))
+                    else:
+                        ops.append(("aligned", self.rand_name(i), self.rand_opts(), r.choice([0, 1, 2, 4, 3, 64, 100, 512, 4096, 32768])))
+                    # 1 MiB contents only in the last entry of a few programs: every later call on a multi-megabyte sink costs the
+                    # list-based model a deep recursion (the stack is scanned at each minor collection)
+                    c = self.rand_content(big_ok=(i == k - 1 and (a == 7 if self.tier == 'quick' else a % 15 == 0)))
                     # split the writes arbitrarily
                     pos = 0
                     cuts = sorted(set(r.randrange(len(c) + 1) for _ in range(r.choice([0, 0, 1, 3])))) if c else []
@@ -161,10 +183,11 @@ class C01(Check):
             idxs = range(len(exp)) if len(exp) <= 12 else r.sample(range(len(exp)), 12 if not huge else 3) + ([len(exp) - 1] if huge else [])
             for i in idxs:
                 e = exp[i]
-                cases.append(("entry %s %d 0 x %d" % (hexs(df), i, r.choice([1, 7, 4096, 65536]) if len(e[1]) <= 3000 else 65536),
+                cases.append(("entry %s %d 0 x %d" % (hexs(df), i, r.choice([1, 7, 4096, 65536]) if len(e[1]) <= 3000 and len(df) <= 40000 else r.choice([4096, 65536])),
                               dict(k="entry", n=len(exp), name=e[0].hex(), content=e[1].hex() if len(e[1]) <= 70000 else None,
                                    crc=binascii.crc32(e[1]) & 0xffffffff, usize=len(e[1]), method=e[2], date=e[3], time=e[4], mode=e[5], fake_locator=fake,
-                                   impl_only=huge)))
+                                   # the model's path accessors are quadratic in the name length: 64 KiB names on the crate only
+                                   impl_only=huge or len(e[0]) > 20000)))
         return cases
 
     def oracle(self, line, meta, out):
